@@ -10,6 +10,7 @@
 #include "common/engine.hpp"
 #include "common/fsutil.hpp"
 #include "common/gen_hist.hpp"
+#include "common/gen_text.hpp"
 #include "common/gen_tree.hpp"
 #include "common/model.hpp"
 
@@ -366,9 +367,59 @@ static void scenario_single(Src &s) {
   leak_check(g_case.desc.c_str());
 }
 
+// (e) files with repeated keys, empty definitions, (double) trailing comments and indented lines, read with the
+// parsing options (JOIN_SAME_ENTRIES re-allocates values and comments of earlier entries), then queried and freed
+static void scenario_option_read(Src &s) {
+  g_case.tag("option_read");
+  clear_dir(g_scr.dir);
+  GOpts o;
+  o.bare = true;
+  o.max_lines = 16;
+  o.long_fields = false;
+  o.wild_trail = true;
+  o.cont_after_quoted = true;
+  o.allowed_di = {0, 1, 2, 4};
+  GFile f = gen_file(s, o);
+  std::string text = f.text();
+  // a few extra definitions of keys that already exist: empty ones, with and without trailing comment
+  if (!f.entries.empty() && f.cls != DC_NONE) {
+    if (!f.final_nl) text += "\n";
+    int extra = (int)s.below(4);
+    std::string sep = f.cls == DC_BLANK ? " " : std::string(1, f.D[f.cls == DC_MIXED ? f.D.size() - 1 : 0]);
+    for (int i = 0; i < extra; i++) {
+      const AEntry &en = f.entries[s.below((uint32_t)f.entries.size())];
+      if (en.key.empty()) continue;
+      size_t k = s.below(4);
+      text += en.key + sep + (k == 0 ? "" : k == 1 ? std::string(" ") + f.C[0] + " start again" : k == 2 ? "more" : std::string("again ") + f.C[0] + " c"
+                                                                                                     + (f.C.size() > 1 ? std::string(" ") + f.C[1] + " d" : "")) + "\n";
+    }
+  }
+  write_file(g_scr.dir + "/opt.conf", text);
+  int optset = (int)s.below(4);
+  std::string opt = "PARSING_DIRS=" + g_scr.dir + (optset & 1 ? ";JOIN_SAME_ENTRIES=1" : "") + (optset & 2 ? ";PYTHON_STYLE=1" : "");
+  econf_file *kf = (econf_file *)SENT;
+  econf_err e = econf_newKeyFile_with_options(&kf, opt.c_str());
+  if (e == ECONF_SUCCESS) e = econf_readConfig(&kf, nullptr, nullptr, "opt", "conf", f.D.c_str(), f.C.c_str());
+  g_case.mix((uint64_t)e);
+  if (e == ECONF_SUCCESS && kf && kf != SENT && s.chance(40)) {
+    // merge with itself / write it out: copies every string once more
+    econf_file *m = (econf_file *)SENT;
+    econf_err e2 = econf_mergeFiles(&m, kf, kf);
+    settle(m, e2, "econf_mergeFiles(self)");
+    econf_set_delimiter_tag(kf, '=');
+    econf_writeFile(kf, g_scr.dir.c_str(), "opt.out");
+  }
+  settle(kf, e, "econf_readConfig with parsing options");
+  g_case.desc = "option read opt=" + std::to_string(optset) + " D='" + esc(f.D) + "' C='" + f.C + "' file='" + esc(text) + "'";
+  g_case.nontrivial = optset != 0;
+  g_case.shape_hash = fnv_u64((uint64_t)optset, f.skeleton());
+  leak_check("read with parsing options");
+}
+
 static void run(Src &s) {
   econf_reset_security_settings();
-  size_t w = s.weighted({30, 50, 10, 10});
+  size_t w = s.weighted({26, 44, 9, 9, 12});
+  if (w == 4) return scenario_option_read(s);
   if (w == 0)
     scenario_history(s);
   else if (w == 1)
